@@ -719,13 +719,32 @@ func (s *c14scn) cycle(ctx context.Context) (terminated bool) {
 		defer close(done)
 		pnc, site = vkit.Recover(func() { s.svc.VerifPrune(cctx) })
 	}()
-	wd := time.NewTimer(3 * time.Minute)
-	defer wd.Stop()
-	select {
-	case <-done:
-	case <-wd.C:
+	// a cycle normally takes milliseconds. If it has not returned after three minutes, the stable-state oracle
+	// decides: a process in which nothing is runnable and whose goroutine dump does not change cannot finish the
+	// cycle any more (a hang: violation); otherwise the machine is merely slow (other scenarios still run) and
+	// we keep waiting, up to an outer limit whose firing is inconclusive.
+	returned := false
+	for waited := 0; waited < 6 && !returned; waited++ {
+		wd := time.NewTimer(3 * time.Minute)
+		select {
+		case <-done:
+			returned = true
+		case <-wd.C:
+			if v, dump := vkit.WaitStable(done, vkit.StableOpts{Polls: 40, Every: 50 * time.Millisecond, MaxWait: 30 * time.Second}); v == "done" {
+				returned = true
+			} else if v == "hang" {
+				cancel()
+				s.c.run.Violation("C14 pruning cycle never returns (stable state: nothing can end it): "+strings.Join(vkit.RepoFrames(dump), " | "),
+					s.witness(map[string]any{"dump": tailStr(dump, 6000)}))
+				s.aborted = true
+				return false
+			}
+		}
+		wd.Stop()
+	}
+	if !returned {
 		cancel()
-		s.c.run.Inconclusive(fmt.Sprintf("C14 cycle did not return within the watchdog (scenario %d)", s.p.Idx))
+		s.c.run.Inconclusive(fmt.Sprintf("C14 cycle did not return within the outer watchdog although the process kept moving (scenario %d)", s.p.Idx))
 		s.aborted = true
 		return false
 	}
